@@ -651,6 +651,9 @@ class TenSym(PySym):
                 return {"True": True, "False": False, "None": None}[n.id]
             if n.id in self.module_env:
                 return self.module_env[n.id]
+            if n.id in self.funcs:
+                # a module-level function used as a value (stored in a table, passed on): called later through apply_closure
+                return ("<closure>", self.funcs[n.id], TenSym({}, self.positive, self.funcs, parent=self))
             raise Unsupported("unbound name %s" % n.id)
         if isinstance(n, ast.Attribute):
             d = dotted(n)
@@ -1095,7 +1098,7 @@ class TenSym(PySym):
         root = n.func
         while isinstance(root, ast.Attribute):
             root = root.value
-        module_call = isinstance(root, ast.Name) and root.id not in self.env        # np.x(...), itertools.x(...), md.x(...): a module function, not a method of a value
+        module_call = isinstance(root, ast.Name) and root.id not in self.env and root.id not in self.module_env        # np.x(...), itertools.x(...), md.x(...): a module function, not a method of a value
         if isinstance(n.func, ast.Attribute) and not module_call and cn not in self.models and cn not in self.funcs:
             recv = self.ex(n.func.value)
             m = n.func.attr
@@ -1205,6 +1208,21 @@ class TenSym(PySym):
                 for k in n.keywords:
                     recv[k.arg] = self.ex(k.value)
                 return None
+            if isinstance(recv, dict) and m in ("setdefault", "pop", "clear"):
+                args_ = [self.ex(a) for a in n.args]
+                if m == "clear":
+                    recv.clear()
+                    return None
+                k_ = self.pyval(args_[0])
+                if isinstance(k_, (Rat, Ten)):
+                    raise Unsupported("dict.%s with a symbolic key" % m)
+                if m == "setdefault":
+                    return recv.setdefault(k_, args_[1] if len(args_) > 1 else None)
+                if k_ in recv:
+                    return recv.pop(k_)
+                if len(args_) > 1:
+                    return args_[1]
+                raise Raised("the analysed path raises: KeyError(%r)" % (k_,), "KeyError(%r)" % (k_,))
             if isinstance(recv, dict) and m in ("items", "keys", "values", "get", "copy"):
                 if m == "items":
                     return [(k, v) for k, v in recv.items()]
@@ -1329,6 +1347,16 @@ class TenSym(PySym):
                 return False
         if cn == "iter" and len(n.args) == 1:
             return list(self.iterate(self.ex(n.args[0])))
+        # ---- a function value obtained from a container / expression: table[key](args)
+        if isinstance(n.func, (ast.Subscript, ast.Call, ast.IfExp)):
+            f = self.ex(n.func)
+            if isinstance(f, tuple) and f[:1] == ("<lambda>",):
+                return self.apply_lambda(f, [self.ex(a) for a in n.args])
+            if isinstance(f, tuple) and f[:1] == ("<closure>",):
+                return self.apply_closure(f, n)
+            if callable(f) and not isinstance(f, (Obj, str)):
+                return f(*self.call_args(n), **{k_.arg: self.ex(k_.value) for k_ in n.keywords if k_.arg})
+            raise Unsupported("call of %s" % src(n.func)[:40])
         # ---- local functions and lambdas held in variables
         if isinstance(n.func, ast.Name) and n.func.id in self.env and isinstance(self.env[n.func.id], tuple) and self.env[n.func.id][:1] in (("<closure>",), ("<lambda>",)):
             f = self.env[n.func.id]
@@ -2056,6 +2084,13 @@ class TenSym(PySym):
                     else:
                         methods[st.name] = st
                 elif isinstance(st, ast.Assign) and len(st.targets) == 1 and isinstance(st.targets[0], ast.Name):
+                    v_ = st.value
+                    if isinstance(v_, ast.Call) and call_name(v_) == "property" and v_.args and isinstance(v_.args[0], ast.Name) and v_.args[0].id in methods:
+                        # name = property(getter[, setter]): the old spelling of @property
+                        props[st.targets[0].id] = methods[v_.args[0].id]
+                        if len(v_.args) > 1 and isinstance(v_.args[1], ast.Name) and v_.args[1].id in methods:
+                            psetters[st.targets[0].id] = methods[v_.args[1].id]
+                        continue
                     consts[st.targets[0].id] = st.value
         collect(cd)
         o = Obj(_cls=cname, _isa=tuple(isa), _methods=methods, _props=props, _psetters=psetters, tag="%s#%d" % (cname, len(self.calls) + id(cd) % 7))
@@ -2216,7 +2251,7 @@ class TenSym(PySym):
             if isinstance(s.value, ast.Call) and (call_name(s.value) or "") in ("np.clip",) and any(k.arg == "out" for k in s.value.keywords):
                 self.ex(s.value)
                 return
-            if isinstance(s.value, ast.Call) and isinstance(s.value.func, ast.Attribute) and s.value.func.attr in ("append", "extend", "insert", "remove", "pop", "update", "add"):
+            if isinstance(s.value, ast.Call) and isinstance(s.value.func, ast.Attribute) and s.value.func.attr in ("append", "extend", "insert", "remove", "pop", "update", "add", "setdefault", "clear"):
                 self.ex(s.value)
                 return
             if isinstance(s.value, ast.Call) and isinstance(s.value.func, ast.Attribute) and s.value.func.attr == "sort":
